@@ -759,7 +759,7 @@ var vfConcProfiles = map[string]*vfConcProfile{
 	"C04": {id: "C04", ticksync: 4, w: map[string]int{"get": 12, "set": 50, "del": 10, "wait": 3, "clear": 4, "yield": 8, "sleep": 3}},
 	"C05": {id: "C05", w: map[string]int{"get": 25, "set": 30, "del": 15, "wait": 12, "yield": 8, "sleep": 2}},
 	"C07": {id: "C07", ticksync: 4, w: map[string]int{"get": 40, "set": 30, "del": 4, "getttl": 6, "iter": 4, "wait": 2, "yield": 4, "sleep": 10}},
-	"C08": {id: "C08", ticksync: 4, allOps: true, w: map[string]int{"get": 22, "set": 22, "del": 8, "getttl": 6, "iter": 4, "wait": 5, "clear": 3, "umc": 3, "umcstorm": 2, "maxcost": 3, "remaining": 4, "metrics": 4, "yield": 8, "sleep": 3}},
+	"C08": {id: "C08", ticksync: 4, allOps: true, w: map[string]int{"get": 22, "set": 22, "del": 8, "getttl": 6, "iter": 4, "wait": 5, "clear": 3, "umc": 3, "umcstorm": 5, "maxcost": 3, "remaining": 4, "metrics": 4, "yield": 8, "sleep": 3}},
 	"C03": {id: "C03", w: map[string]int{"get": 20, "set": 50, "del": 10, "wait": 3, "umc": 2, "yield": 8, "sleep": 2}},
 	"C13": {id: "C13", ticksync: 4, w: map[string]int{"get": 15, "set": 45, "del": 12, "iter": 4, "wait": 3, "clear": 1, "yield": 8, "sleep": 4}},
 	"C17": {id: "C17", w: map[string]int{"get": 30, "set": 40, "del": 8, "wait": 3, "yield": 8, "sleep": 3}},
